@@ -1437,6 +1437,9 @@ class T:
                    "plain": self.gen_plain, "abstract": self.gen_abstract}[k](key)
             self.info[key] = inf
             return inf
+        except BaseException:
+            self.info.pop(key, None)       # nothing half-translated stays registered
+            raise
         finally:
             self.busy.discard(key)
 
@@ -1541,6 +1544,9 @@ class T:
                 raise Untranslatable(f"{key[1]}: default of {p} may raise")
             if isinstance(v.t, tuple) and v.t[0] in ("fset", "dict") and v.t[1] is None:
                 v = V("[]", t)
+            if v.t == "none" and t != "pyint":
+                out.append(f"(* default of {p}: None (stands for `not given`; no value of the parameter's type) *)")
+                continue
             out.append(f"Definition gen_{inf.cn}_default_{p} : {self.ctype(t)} := {self.pack(self.coerce(v, t))}.")
         return out
 
